@@ -82,6 +82,12 @@ def check_prefix_parts(m, info):
         if COMMENT_FF.search(l.prefix):
             info['comment_ff'] = True
         try:
+            if (len(l.prefix) + len(l.value)) % 3 == 0:
+                # history: a consumer that looks only at the first part(s) of this very prefix and drops the iterator
+                it = l._split_prefix()
+                for _ in range(1 + len(l.value) % 2):
+                    next(it, None)
+                del it
             parts = list(l._split_prefix())
         except RecursionError:
             raise
@@ -121,7 +127,7 @@ class C09(Prop):
             'FS/GS/RS, VT), form feeds, comments, BOM followed by more lines x 9 token collections. Oracle: tokenize never raises, '
             'one final ENDMARKER, prefix+string tile the input, every non-zero-width token start equals the reference walker, '
             'INDENT/DEDENT balanced and never negative, zero-width tokens empty, every prefix matches BOM?(ws|comment|backslash-NL|NL)* '
-            'with the BOM only leading; for every leaf of parse(code): _split_prefix does not raise, parts tile the prefix, part '
+            'with the BOM only leading; for every leaf of parse(code): _split_prefix (for a third of the leaves preceded by a consumer that stops after the first part or two) does not raise, parts tile the prefix, part '
             'start/end equal the walker and end at the leaf. Non-trivial: stream has ERRORTOKEN/f-string token/INDENT or a prefix '
             'with >=2 typed parts.')
     assumptions = ['Token.end_pos is outside the statement (start positions only)']
